@@ -23,6 +23,43 @@ CLASS_OF = {'PointPixelRegion': 'point', 'CirclePixelRegion': 'circle', 'Ellipse
             'RegularPolygonPixelRegion': 'regularPolygon', 'RectangleAnnulusPixelRegion': 'rectangleAnnulus',
             'LinePixelRegion': 'line', 'TextPixelRegion': 'text', 'CompoundPixelRegion': 'compound'}
 NUMCOLS = ('X', 'Y', 'R', 'ROTANG')
+ANGLE_UNITS = ('deg', 'rad', 'arcmin', 'arcsec', 'hourangle')
+ANGLE_TOL = Fraction(1, 10 ** 12)        # relative; only where astropy converted between units
+_UNIT_CACHE = {}
+
+
+def unit_info(name):
+    """what astropy says about an angular unit: degrees per unit (the exact rational of its float scale)
+    and whether io.fits can store a column in that unit (tried for real, once per process)."""
+    if name not in _UNIT_CACHE:
+        import io
+        import astropy.units as u
+        from astropy.io import fits
+        from astropy.table import QTable
+        un = u.Unit(name)
+        try:
+            with warnings.catch_warnings():
+                warnings.simplefilter('ignore')
+                fits.BinTableHDU(data=QTable({'A': [1.0] * un})).writeto(io.BytesIO())
+            ok = True
+        except Exception:
+            ok = False
+        _UNIT_CACHE[name] = {'name': name, 'deg': frac(Fraction(float(un.to(u.deg)))), 'fits': ok}
+    return _UNIT_CACHE[name]
+
+
+def degrees(value, unit):
+    """exact product of the stored value and astropy's scale of the unit."""
+    return F(value) * F(unit_info(unit or 'deg')['deg'])
+
+
+def close(a, b, tol=ANGLE_TOL):
+    if a == b:
+        return True
+    if a is None or b is None or 'nan' in (a, b):
+        return False
+    a, b = F(a), F(b)
+    return abs(a - b) <= tol * max(abs(a), abs(b))
 GEN_PATH = os.path.join(LEAN_DIR, 'RegionsVerif', 'Gen', 'FitsTables.lean')
 
 
@@ -70,7 +107,7 @@ def build_region(spec):
         return R.PolygonPixelRegion(R.PixCoord([fl(v) for v in spec['xs']], [fl(v) for v in spec['ys']]), meta=meta)
     c = R.PixCoord(fl(spec['xs'][0]), fl(spec['ys'][0]))
     p = [fl(v) for v in spec['params']]
-    ang = None if spec.get('angle') is None else fl(spec['angle']) * u.deg
+    ang = None if spec.get('angle') is None else fl(spec['angle']) * u.Unit(spec.get('aunit') or 'deg')
     if cls == 'point':
         return R.PointPixelRegion(c, meta=meta)
     if cls == 'circle':
@@ -111,7 +148,7 @@ def canon_region(r):
     """real region object -> exact canonical record (what the FITS code reads through `_params`)."""
     import astropy.units as u
     kind = CLASS_OF.get(type(r).__name__, type(r).__name__)
-    out = {'kind': kind, 'xs': [], 'ys': [], 'params': [], 'angle': None}
+    out = {'kind': kind, 'xs': [], 'ys': [], 'params': [], 'angle': None, 'aunit': None}
     if kind not in REPRESENTABLE:
         pass                      # skipped by the writer: geometry is never read
     elif kind in ('polygon', 'regularPolygon'):
@@ -124,7 +161,8 @@ def canon_region(r):
                 out['xs'] = [num(v.x)]
                 out['ys'] = [num(v.y)]
             elif p == 'angle':
-                out['angle'] = num(v.to_value(u.deg))
+                out['angle'] = num(v.value)           # the value as stored, in its own unit
+                out['aunit'] = str(v.unit)
             elif p in ('start', 'end', 'text'):
                 pass
             else:
@@ -158,7 +196,8 @@ def canon_table(t):
         rows.append(row)
     units = {c: str(getattr(t[c], 'unit', None)) for c in cols if c in NUMCOLS}
     obj = 'COMPONENT' in cols and t['COMPONENT'].dtype == object
-    return {'cols': cols, 'rows': rows, 'comp_object': bool(obj)}, units
+    ru = str(t['ROTANG'].unit) if ('ROTANG' in cols and len(t)) else None
+    return {'cols': cols, 'rows': rows, 'comp_object': bool(obj), 'rotang_unit': ru}, units
 
 
 def canon_warnings(ws):
@@ -356,6 +395,17 @@ def gen_list(rng, n=None):
         else:
             cls = rng.choice(REPRESENTABLE)
         specs.append(gen_region(rng, cls))
+    # angular units: all degrees / one other unit for the whole list / mixed within the list
+    umode = rng.choice(['deg', 'deg', 'deg', 'one', 'mixed', 'mixed', 'mixed'])
+    one = rng.choice(ANGLE_UNITS)
+    for s in specs:
+        if s.get('angle') is not None and not s['sky']:
+            if umode == 'one':
+                s['aunit'] = one
+            elif umode == 'mixed':
+                s['aunit'] = rng.choice(ANGLE_UNITS)
+            else:
+                s['aunit'] = 'deg'
     # include
     imode = rng.choice(['absent', 'truthy', 'mixed', 'mixed', 'simple_excl'])
     for s in specs:
@@ -434,9 +484,10 @@ def gen_table(rng, malformed=False):
         cols.append('COMPONENT')
     if rng.random() < 0.3:
         rng.shuffle(cols)
-    units = {'X': 'pix', 'Y': 'pix', 'R': 'pix', 'ROTANG': 'deg'}
+    runit = rng.choice(['deg', 'deg', 'deg', 'rad', 'arcmin', 'arcsec'])
+    units = {'X': 'pix', 'Y': 'pix', 'R': 'pix', 'ROTANG': runit}
     if rng.random() < 0.15:
-        units = {'X': None, 'Y': None, 'R': None, 'ROTANG': 'deg'}
+        units = {'X': None, 'Y': None, 'R': None, 'ROTANG': runit}
     if malformed:
         what = rng.choice(['badshape', 'unsupported', 'dropcol', 'extracol', 'negsize', 'noshape', 'shortx', 'emptyname'])
         row = rng.choice(rows)
@@ -486,7 +537,10 @@ class Check(PropertyCheck):
         'astropy file layer (BinTableHDU.writeto, fits.open, QTable.read) returns the table that was written '
         '(checked on every case: the table read back is compared cell by cell) and raises TypeError for an '
         'object-dtype column',
-        'angles are given in degrees (a list mixing angular units is converted by astropy with float rounding)',
+        'astropy converts an angle between units by ONE multiplication with the ratio of the unit scales '
+        '(Quantity.to_value); the model uses the exact ratio of the scales astropy reports, and wherever such a '
+        'conversion happened (a row whose angle unit differs from the unit of the first written row) the value is '
+        'compared to 1e-12 relative instead of exactly; same-unit values are compared exactly',
         'x/2 and 2x are exact in binary floating point (no under/overflow in the generated range)',
         'the regular polygon enters through its `vertices` attribute (computed by its constructor with float trig)',
         'reading: "fresh, distinct ones otherwise" is read as: when no region of the list carries a component, '
@@ -648,17 +702,19 @@ class Check(PropertyCheck):
                 'params': inp['params'] if geo and spec['cls'] != 'regularPolygon' else [],
                 'angle': inp['angle'] if geo and spec['cls'] != 'regularPolygon' else None,
                 'incl': {'absent': 'absent', 'true': True, 'false': False, '0': 0, '1': 1}[spec['incl']],
-                'comp': spec['comp']}
+                'comp': spec['comp'],
+                'aunit': unit_info(inp['aunit']) if geo and spec['cls'] != 'regularPolygon' and inp['aunit'] else None}
 
     def _variant(self):
-        v = os.environ.get('C12_VARIANT')      # testing aid only: "1,1,1,1" = model of the fully patched code
+        v = os.environ.get('C12_VARIANT')      # testing aid only: "1,1,1,1,1" = model of the fully patched code
         return None if not v else [x.strip() == '1' for x in v.split(',')]
 
     def requests(self, case):
         req = {}
         if case['kind'] == 'table':
             t = case['table']
-            req = {'op': 'fits.parse', 'table': {'cols': t['cols'], 'rows': t['rows']}}
+            req = {'op': 'fits.parse', 'table': {'cols': t['cols'], 'rows': t['rows'],
+                                                 'rotang_unit': unit_info(t['units'].get('ROTANG') or 'deg')}}
         else:
             regs = []
             for s in case['regions']:
@@ -682,7 +738,7 @@ class Check(PropertyCheck):
             if isinstance(incl, str) and incl != 'absent':
                 incl = int(incl)
             out.append({'kind': r['kind'], 'xs': r['xs'], 'ys': r['ys'], 'params': r['params'], 'angle': r['angle'],
-                        'incl': incl, 'comp': None if r['comp'] is None else int(r['comp'])})
+                        'aunit': r.get('aunit'), 'incl': incl, 'comp': None if r['comp'] is None else int(r['comp'])})
         return {'ok': out}
 
     def model(self, case, replies):
@@ -698,15 +754,54 @@ class Check(PropertyCheck):
         return {'table': t, 'warnings': r['warnings'], 'parsed': self._norm_regs(r['parsed']),
                 'file': self._norm_regs(r['file'])}
 
+    @staticmethod
+    def _regs_equal(a, b, tol_rows):
+        """exact, except the angle VALUE of the rows in tol_rows (astropy converted it: one float rounding)."""
+        if a is None or b is None or 'err' in a or 'err' in b:
+            return a == b
+        if len(a['ok']) != len(b['ok']):
+            return False
+        for i, (x, y) in enumerate(zip(a['ok'], b['ok'])):
+            if tol_rows is True or i in tol_rows:
+                if dict(x, angle=None) != dict(y, angle=None) or not close(x['angle'], y['angle']):
+                    return False
+            elif x != y:
+                return False
+        return True
+
+    @staticmethod
+    def _converted_rows(case):
+        """indices (among the written regions) whose ROTANG value astropy converts to the column unit."""
+        w = [s for s in case['regions'] if not s['sky'] and s['cls'] in REPRESENTABLE]
+        if not w:
+            return set(), None
+        has = lambda s: s['cls'] in HAS_ANGLE
+        col = (w[0].get('aunit') or 'deg') if has(w[0]) else 'deg'
+        return {i for i, s in enumerate(w) if has(s) and (s.get('aunit') or 'deg') != col}, col
+
     def equal(self, case, real, model):
         if 'fail' in model:
             return False
         strip = self._norm_regs
         if case['kind'] == 'table':
-            return (strip(real['parsed']) == model['parsed'] and strip(real['again']) == model['again']
+            return (strip(real['parsed']) == model['parsed']
+                    and self._regs_equal(strip(real['again']), model['again'], True)
                     and strip(real['file']) == model['parsed'])
-        return (real['table'] == model['table'] and real['warnings'] == model['warnings']
-                and strip(real['parsed']) == model['parsed'] and strip(real['file']) == model['file'])
+        conv, _ = self._converted_rows(case)
+        rt, mt = real['table'], model['table']
+        if (rt['cols'], rt['comp_object'], rt['rotang_unit'], len(rt['rows'])) != \
+                (mt['cols'], mt['comp_object'], mt['rotang_unit'], len(mt['rows'])):
+            return False
+        for i, (a, b) in enumerate(zip(rt['rows'], mt['rows'])):
+            if i in conv:
+                if dict(a, rotang=None) != dict(b, rotang=None) or list(a['rotang']) != list(b['rotang']) or \
+                        not close(a['rotang'].get('s'), b['rotang'].get('s')):
+                    return False
+            elif a != b:
+                return False
+        return (real['warnings'] == model['warnings']
+                and self._regs_equal(strip(real['parsed']), model['parsed'], conv)
+                and self._regs_equal(strip(real['file']), model['file'], conv))
 
     # ---------------------------------------------------------------- oracle (the property, first principles)
     @staticmethod
@@ -746,9 +841,14 @@ class Check(PropertyCheck):
                 bad('class_changed', f'#{i} {s["cls"]} came back as {o["kind"]}', i)
                 continue
             want_angle = inp['angle'] if s['cls'] in HAS_ANGLE else None
-            if (o['xs'], o['ys'], o['params'], o['angle']) != (inp['xs'], inp['ys'], inp['params'], want_angle):
+            # the angle is compared by VALUE in degrees (exact product with astropy's unit scale), 1e-12 relative
+            angle_ok = (o['angle'] is None) == (want_angle is None) and (
+                want_angle is None or close(frac(degrees(o['angle'], o['aunit'])), frac(degrees(want_angle, inp['aunit']))))
+            if (o['xs'], o['ys'], o['params']) != (inp['xs'], inp['ys'], inp['params']) or not angle_ok:
                 sig = 'other'
-                if o['xs'] == inp['xs'] and o['ys'] == inp['ys'] and o['angle'] == want_angle and \
+                if (o['xs'], o['ys'], o['params']) == (inp['xs'], inp['ys'], inp['params']):
+                    sig = 'angle_changed'
+                if o['xs'] == inp['xs'] and o['ys'] == inp['ys'] and angle_ok and \
                         o['params'] == [frac(2 * F(p)) for p in inp['params']]:
                     sig = 'sizes_doubled'
                 n = len(inp['xs'])
@@ -756,7 +856,7 @@ class Check(PropertyCheck):
                         o['ys'][:n] == inp['ys'] and set(o['xs'][n:]) | set(o['ys'][n:]) == {'0'}:
                     sig = 'zero_padded'
                 bad('geometry_changed', f'#{i} {s["cls"]} incl={s["incl"]}: wrote {inp["xs"][:3]}.. {inp["params"]} '
-                    f'{want_angle}, read {o["xs"][:9]} {o["ys"][:9]} {o["params"]} {o["angle"]}', i, sig=sig)
+                    f'{want_angle} {inp["aunit"]}, read {o["xs"][:9]} {o["ys"][:9]} {o["params"]} {o["angle"]} {o["aunit"]}', i, sig=sig)
             if self._excluded_out(o) != self._excluded_in(s):
                 bad('exclude_lost' if self._excluded_in(s) else 'exclude_gained',
                     f'#{i} {s["cls"]} include={s["incl"]} came back with include={o["incl"]} (component={o["comp"]})', i)
@@ -794,7 +894,8 @@ class Check(PropertyCheck):
         # table shape: one row per written region, pixel/degree units
         if len(real['table']['rows']) != len(wspecs):
             V.append({'kind': 'row_count', 'detail': f'{len(wspecs)} representable regions, {len(real["table"]["rows"])} rows'})
-        if wspecs and real['units'] != {'X': 'pix', 'Y': 'pix', 'R': 'pix', 'ROTANG': 'deg'}:
+        if wspecs and ({k: real['units'].get(k) for k in 'XYR'} != {'X': 'pix', 'Y': 'pix', 'R': 'pix'}
+                       or real['units'].get('ROTANG') not in ANGLE_UNITS):
             V.append({'kind': 'table_units', 'detail': str(real['units'])})
         # leading '!' <=> excluded
         for s, row in zip(wspecs, real['table']['rows']):
@@ -819,8 +920,10 @@ class Check(PropertyCheck):
                           'detail': f'still raises without the regions that fail alone: {real["parsed_rest"]}'})
         # through the file
         if real['file_stage'] == 'write' and 'err' in real['file']:
+            conv, col = self._converted_rows(case)
             V.append({'kind': 'file_write_failed', 'where': 'file', 'exc': real['file']['err'], 'any_comp': any_comp,
-                      'partial_comp': partial,
+                      'partial_comp': partial, 'col_unit': col,
+                      'col_unit_storable': None if col is None else unit_info(col)['fits'],
                       'detail': f'Regions.write raised {real["file"]["err"]}: {real["file"].get("msg")} '
                                 f'(components given: {given})'})
         else:
@@ -832,9 +935,26 @@ class Check(PropertyCheck):
                 V.append({'kind': 'file_differs_from_memory', 'where': 'file',
                           'detail': f'{strip(real["file"])} != {strip(real["parsed"])}'})
         # fixed point
-        if real['again'] is not None and self._norm_regs(real['again']) != self._norm_regs(real['parsed']):
+        if real['again'] is not None and not self._same_by_value(real['again'], real['parsed']):
             V.append(self._fixed_point_violation(real['parsed'], real['again']))
         return V
+
+    def _same_by_value(self, a, b):
+        """two canonical results describe the same regions: everything exact, the angle by VALUE in degrees."""
+        a, b = self._norm_regs(a), self._norm_regs(b)
+        if a is None or b is None or 'err' in a or 'err' in b:
+            return a == b
+        if len(a['ok']) != len(b['ok']):
+            return False
+        return all(self._reg_same_by_value(x, y) for x, y in zip(a['ok'], b['ok']))
+
+    @staticmethod
+    def _reg_same_by_value(x, y):
+        if dict(x, angle=None, aunit=None) != dict(y, angle=None, aunit=None):
+            return False
+        if (x['angle'] is None) != (y['angle'] is None):
+            return False
+        return x['angle'] is None or close(frac(degrees(x['angle'], x['aunit'])), frac(degrees(y['angle'], y['aunit'])))
 
     def _fixed_point_violation(self, parsed, again):
         p = parsed['ok']
@@ -845,7 +965,7 @@ class Check(PropertyCheck):
         elif len(again['ok']) == len(p):
             nr = self._norm_regs(parsed)['ok']
             na = self._norm_regs(again)['ok']
-            diff = [i for i in range(len(p)) if nr[i] != na[i]]
+            diff = [i for i in range(len(p)) if not self._reg_same_by_value(nr[i], na[i])]
             only_f8 = bool(diff) and all(self._excluded_out(p[i]) and p[i]['kind'] in F8_CLASSES for i in diff)
         return {'kind': 'not_fixed_point', 'only_excluded_renamed_classes': only_f8,
                 'detail': f'parse(serialize(parse(T))) != parse(T): {self._norm_regs(again)} vs {self._norm_regs(parsed)}'}
@@ -859,7 +979,7 @@ class Check(PropertyCheck):
                       'detail': f'{strip(real["file"])} != {strip(real["parsed"])}'})
         if 'err' in real['parsed']:
             return V
-        if real['again'] is not None and strip(real['again']) != strip(real['parsed']):
+        if real['again'] is not None and not self._same_by_value(real['again'], real['parsed']):
             V.append(self._fixed_point_violation(real['parsed'], real['again']))
         out = real['parsed']['ok']
         cols = spec['cols']
@@ -895,8 +1015,11 @@ class Check(PropertyCheck):
             except (IndexError, KeyError):
                 want = None
             if want is not None:
+                tunit = spec['units'].get('ROTANG') or 'deg'
+                rotated = name in ('rotbox', 'rotrectangle')
+                want = want[:3] + (degrees(frac(want[3]), tunit if rotated else 'deg'),)
                 got = ([F(v) for v in o['xs']], [F(v) for v in o['ys']], [F(v) for v in o['params']],
-                       None if o['angle'] is None else F(o['angle']))
+                       None if o['angle'] is None else degrees(o['angle'], o['aunit']))
                 if o['kind'] != 'rectangle' or got != want:
                     V.append({'kind': 'notation_misread', 'detail': f'row {i} {row}: expected rectangle {want}, got {o}'})
         return V
@@ -918,6 +1041,8 @@ class Check(PropertyCheck):
             return k == 'exclude_lost' and bool(v.get('excluded')) and bool(v.get('any_comp'))
         if fid == 'F10':
             return k == 'geometry_changed' and v.get('cls') in ('polygon', 'regularPolygon') and v.get('sig') == 'zero_padded'
+        if fid == 'F122':
+            return k == 'file_write_failed' and v.get('exc') == 'UnitScaleError' and v.get('col_unit_storable') is False
         if fid == 'F121':
             return k == 'file_write_failed' and v.get('exc') == 'TypeError' and bool(v.get('partial_comp'))
         return False
@@ -947,6 +1072,11 @@ class Check(PropertyCheck):
             tags.append('F10')
         if any(c is not None for c in comps) and any(c is None for c in comps):
             tags.append('F121')
+        conv, col = self._converted_rows(case)
+        if col is not None and not unit_info(col)['fits']:
+            tags.append('F122')
+        if conv:
+            tags.append('unitmix')
         skipped = len(case['regions']) - len(specs)
         pad = 'padded' if len({s['cls'] for s in specs}) > 1 else 'uniform'
         return 'list/' + ('+'.join(tags) if tags else 'clean') + '/' + pad + ('/skips' if skipped else '')
